@@ -255,3 +255,31 @@ def nontrivial_key(c):
 
 def signature(c):
     return {"kind": "pool-trace", "stage": stage_name(c["stage"])}
+
+
+def install(g, pid, family, title, rule, claim, assumptions, extra_trusted=()):
+    """fills the module namespace g of props/cXX.py for a Pool-family property"""
+    def run_impl(ctx, tier=None, seed=None):
+        return run_family(ctx, family, tier=tier, seed=seed, replay_cases=ctx.replay_cases)
+
+    def search(ctx, evaluate):
+        found = []
+        explored = 0
+        for sd in range(3):
+            cases = run_family(ctx, family, tier="thorough" if sd == 0 else "quick", seed=int(ctx.seed) + 1000 + sd)
+            explored += len(cases)
+            ev = evaluate(cases)
+            found += [cases[i] for i in sorted(set(ev["violations"]))]
+            if found:
+                break
+        return found, {"explored": explored, "found": len(found)}
+
+    def shrink(ctx, c):
+        return c
+
+    g.update(dict(
+        ID=pid, CHECK_MODULE="Check." + pid, TARGETS_CHECK=["theories/Check/%s.vo" % pid],
+        TARGETS_PROP=["theories/Properties/%s.vo" % pid], RULE=rule, TRUSTED=list(TRUSTED) + list(extra_trusted),
+        ASSUMPTIONS=assumptions, CLAIM=claim, SHARD=60, run_impl=run_impl, to_coq=to_coq, nontrivial_key=nontrivial_key,
+        signature=signature, describe=describe, sample=lambda c: describe(c), histogram=histogram, search=search,
+    ))
